@@ -1,5 +1,7 @@
 package http2
 
+import "github.com/valyala/fasthttp"
+
 // C20, continued: the whole-list harness is kept in a file of its own because it
 // touches no internal state of the package, so it still compiles when a change
 // renames or removes the fields the step harnesses in h_C20.go set up.
@@ -174,4 +176,49 @@ func VerifH_C20_resalone() {
 		vAssert(b.res.StatusCode() == 404 && string(b.res.Header.Peek("x-t")) == "A", "C20.resalone.other-response-intact")
 	}
 	vCover("C20.resalone.cut", cut == 3 && db)
+}
+
+// Trailers: a request whose header block is well-formed, one DATA frame, and
+// a trailer block (HEADERS with END_STREAM) that holds one field: a regular
+// field (legal), or a pseudo-header - :authority, a second :method, :path, an
+// undefined one - which RFC 7540 8.1.2.1 forbids in trailers. The handler
+// runs exactly for the legal one; the others are refused as malformed (stream
+// or connection error of type PROTOCOL_ERROR) and nothing of the trailer
+// reaches a request.
+//
+//verif:harness prop=C20 unwind=300 timeout=600
+func VerifH_C20_trailers() {
+	s := vStartServer(8)
+	host := ""
+	s.sc.h = func(ctx *fasthttp.RequestCtx) {
+		s.handled = append(s.handled, string(ctx.Request.Header.RequestURI()))
+		host = string(ctx.Request.Header.Host())
+		ctx.Response.SetStatusCode(200)
+	}
+	var tr []byte
+	which := vRange(0, 4)
+	switch which {
+	case 0:
+		tr = []byte{0x00, 0x03, 'x', '-', 't', 0x01, 'v'}
+	case 1:
+		tr = []byte{0x01, 0x04, 'e', 'v', 'i', 'l'} // :authority evil
+	case 2:
+		tr = []byte{0x82} // :method GET
+	case 3:
+		tr = []byte{0x04, 0x02, '/', 'z'} // :path /z
+	default:
+		tr = []byte{0x00, 0x04, ':', 'f', 'o', 'o', 0x01, 'v'}
+	}
+	s.send(vFrame(0x1, 0x4, 1, vBlock(true, '1')))
+	s.send(vFrame(0x0, 0x0, 1, []byte("d")))
+	s.send(vFrame(0x1, 0x5, 1, tr))
+	r := vClassify(s.replies())
+	if which == 0 {
+		vAssert(len(s.handled) == 1 && !r.goaway && len(r.rst) == 0, "C20.trailers.legal-trailers-accepted")
+	} else {
+		vAssert(len(s.handled) == 0, "C20.trailers.pseudo-header-in-trailers-is-malformed")
+		vAssert(r.goaway || len(r.rst) == 1, "C20.trailers.refused")
+		vAssert(host != "evil", "C20.trailers.nothing-taken-from-the-trailer")
+	}
+	vCover("C20.trailers.legal", which == 0 && len(s.handled) == 1)
 }
